@@ -100,6 +100,12 @@ func ReceiveFeedback(item *models.Item) error {
 		panic("item is not a seed")
 	}
 
+	// A frozen or stopping reactor accepts nothing: the select below picks at random
+	// among its ready cases and sending to the input channel is always ready.
+	if err := globalReactor.rejected(); err != nil {
+		return err
+	}
+
 	// Feedback for a seed that is not tracked must not create a state table entry:
 	// a later MarkAsFinished would release a token that was never taken.
 	if _, tracked := globalReactor.stateTable.Load(item.GetID()); !tracked {
@@ -137,6 +143,13 @@ func ReceiveInsert(item *models.Item) error {
 		logger.Debug("received item on frozen reactor", "item", item.GetShortID())
 		return ErrReactorFrozen
 	case globalReactor.tokenPool <- struct{}{}:
+		// The select picks at random among its ready cases: a token can be granted
+		// although the reactor is frozen or stopping. Give it back and reject the item.
+		if err := globalReactor.rejected(); err != nil {
+			<-globalReactor.tokenPool
+			return err
+		}
+
 		logger.Debug("received item", "item", item.GetShortID())
 		if !item.IsSeed() {
 			spew.Dump(item)
@@ -168,6 +181,18 @@ func MarkAsFinished(item *models.Item) error {
 		return nil
 	}
 	return ErrFinisehdItemNotFound
+}
+
+// rejected reports, without blocking, why the reactor accepts nothing anymore (nil if it still does).
+func (r *reactor) rejected() error {
+	select {
+	case <-r.ctx.Done():
+		return ErrReactorShuttingDown
+	case <-r.freezeCtx.Done():
+		return ErrReactorFrozen
+	default:
+		return nil
+	}
 }
 
 func (r *reactor) run() {
